@@ -3,11 +3,20 @@ import json, sys
 pid = sys.argv[1]; wt = sys.argv[2]
 n = sys.argv[3] if len(sys.argv) > 3 else "2"
 p = next(json.loads(l) for l in open('/verif/properties.jsonl') if json.loads(l)['id'] == pid)
+import glob, os
+avoid = []
+for d in sorted(glob.glob(f"/verif/seeded/{pid.lower()}_*/notes.txt")):
+    lines = [l.strip() for l in open(d).read().splitlines() if l.strip()]
+    if lines:
+        avoid.append("  - " + lines[0][:220])
+AVOID = ""
+if avoid and os.environ.get("WAVE2"):
+    AVOID = "Other people have ALREADY produced the following changes for this property; yours must be different in kind (different function or different mechanism, not a variation of these):\n" + "\n".join(avoid) + "\n\n"
 print(f"""You are helping test a verification effort by writing realistic bugs ("seeded defects") for the Python library circuitgraph (gate-level Boolean circuits as NetworkX graphs).
 
 Your scratch git worktree of the library is {wt} (work ONLY there; never touch /repo or /verif, and do not read anything under /verif). Python is /venv/bin/python; run it with PYTHONPATH={wt} so that `import circuitgraph` resolves to your worktree (check circuitgraph.__file__). The existing test suite is run with:
   cd {wt} && PYTHONPATH={wt} /venv/bin/python -m pytest -q -p no:cacheprovider --timeout=900 tests
-On the unmodified tree 42 tests pass and 27 fail (the 27 need the python-sat package, which is NOT installed and cannot be installed: no network). "Passing the existing tests" means: exactly the same 42 tests still pass. If your demonstration needs SAT-backed functions (circuitgraph.sat / props), write a tiny stand-in `pysat` package (pysat.formula.CNF, IDPool; pysat.solvers.Cadical153 with bootstrap_with=, add_clause, solve, get_model) in a directory OUTSIDE the worktree's tracked files (e.g. {wt}/_demo/pysat) and put it on PYTHONPATH for the demonstration only; prefer demonstrations that evaluate circuits with your own small simulator instead.
+On the unmodified tree 44 tests pass and 25 fail (the 27 need the python-sat package, which is NOT installed and cannot be installed: no network). "Passing the existing tests" means: every test that passes on the unmodified tree still passes. If your demonstration needs SAT-backed functions (circuitgraph.sat / props), write a tiny stand-in `pysat` package (pysat.formula.CNF, IDPool; pysat.solvers.Cadical153 with bootstrap_with=, add_clause, solve, get_model) in a directory OUTSIDE the worktree's tracked files (e.g. {wt}/_demo/pysat) and put it on PYTHONPATH for the demonstration only; prefer demonstrations that evaluate circuits with your own small simulator instead.
 
 The property under attack:
   {p['id']} - {p['title']}
@@ -15,13 +24,13 @@ The property under attack:
   Quantified over: {p['quantifier']['text']}
   Code it is anchored in: {', '.join(p['anchors']['files'])}
 
-Task: produce {n} DIFFERENT changes to the library source (under {wt}/circuitgraph/), each of which
+{AVOID}Task: produce {n} DIFFERENT changes to the library source (under {wt}/circuitgraph/), each of which
   (a) breaks the property above for some inputs,
-  (b) still imports/compiles and leaves exactly the same 42 existing tests passing (run them to be sure),
+  (b) still imports/compiles and leaves every existing test that passes on the unmodified tree passing (run them to be sure),
   (c) is realistic - the kind of slip a maintainer could make while refactoring or optimising (an off-by-one, a wrong table entry, a swapped argument, a dropped special case, a condition that is slightly too strong/weak, stale state reused across calls, two sites that each look fine alone) - not sabotage and not a comment/rename,
   (d) needs something specific to manifest: an unusual-but-legal input shape (a particular gate type at a particular fan-in, a particular combination of flags, an output that is also an input, a particular node-name or ordering), or a multi-step sequence of calls, or a particular set-iteration order - NOT something that any ordinary use would expose at once. Small diffs (1-10 lines) are best.
-For each change k (k = 1..{n}) leave these files in {wt}/_seeded/{pid.lower()}_k/ :
+For each change k (k = 1..{n}) leave these files in {wt}/_seeded/{pid.lower()}_w2_k/ :
   patch.diff  - `git diff` of the change against the worktree HEAD (source files only; must apply with `git apply` to a clean checkout of HEAD),
   demo.py     - a small standalone program (run as: PYTHONPATH=<tree> /venv/bin/python demo.py) that exits 0 on the unmodified tree and exits non-zero (assertion failure with a clear message) with the change applied; it must be deterministic (if it depends on set iteration order, set/document PYTHONHASHSEED or make it robust),
   notes.txt   - 3-6 lines: what the change is, why it breaks the property, what specific condition is needed to manifest it, and what you ran (test suite result with the change; demo result with and without).
-Work on one change at a time: apply, run the 42 tests, run demo, save `git diff`, then `git checkout -- circuitgraph` before the next. Leave the worktree's tracked files clean at the end (only the untracked _seeded/ and _demo/ directories remain). Finally report, per change, the one-line summary and the confirmation results. Do not commit anything.""")
+Work on one change at a time: apply, run the tests, run demo, save `git diff`, then `git checkout -- circuitgraph` before the next. Leave the worktree's tracked files clean at the end (only the untracked _seeded/ and _demo/ directories remain). Finally report, per change, the one-line summary and the confirmation results. Do not commit anything.""")
